@@ -5,12 +5,13 @@ From Coq Require Import List Arith Bool Lia.
 From NV Require Import Scalar.Ops Model.Common Model.Basis Model.KnotIns Model.InsertKnot Proofs.KnotInsR.
 Import ListNotations.
 
+(* case analysis on every boolean comparison of the goal; contradictory branches are closed at once *)
 Ltac bdestr :=
-  repeat match goal with
+  repeat (match goal with
   | |- context [Nat.leb ?a ?b] => destruct (Nat.leb_spec a b)
   | |- context [Nat.ltb ?a ?b] => destruct (Nat.ltb_spec a b)
   | |- context [Nat.eqb ?a ?b] => destruct (Nat.eqb_spec a b)
-  end; cbn [andb orb negb]; try lia.
+  end; try (exfalso; lia)); cbn [andb orb negb]; try lia.
 
 Section Tri.
 Context {T : Type} (K : ops T) {A : Type} (lerpA : T -> A -> A -> A) (dA : A).
